@@ -18,6 +18,12 @@ def prepare(prog):
         prepare_tasks(prog)
     except KeyError:
         pass        # build_tasks is then reported as unreachable on its own
+    try:
+        j_start = lambda s: isinstance(s, ast.Assign) and isinstance(s.targets[0], ast.Name) and s.targets[0].id == "jitter"
+        j_in = lambda s: isinstance(s, ast.Assign) and isinstance(s.targets[0], ast.Name) and s.targets[0].id in ("jitter", "jittered")
+        extract_block(prog, f"{MT}:jitter_command", "jitter_arith", j_start, j_in, ["rng", "original", "delta"], "jittered")
+    except KeyError:
+        pass
     return extract_block(prog, f"{MT}:snap_command", "snap_arith", is_start, belongs, ["original", "ticks_per_second"], "snapped")
 
 
@@ -72,3 +78,14 @@ def declare(S: Spec):
                              "all(tasks[k].workload_index == k and tasks[k].seed == start_seed + k and tasks[k].params_file == params_file"
                              " and tasks[k].output_dir == output_dir and tasks[k].jitter_seed == jitter_seed for k in range(len(tasks)))"])},
          note="the loop is taken verbatim from sensitivity_sample_command; what each task does with its seed is checked natively (bounded)")
+
+    S.cls("NpRng", {})
+    S.fn("ext:NpRng.uniform", params={"low": REAL, "high": REAL}, returns=REAL, requires=[],
+         ensures=["implies(low <= high, low <= result and result <= high)"], modifies=[],
+         note="A-RNG: numpy.random.Generator.uniform(low, high) returns an arbitrary value of [low, high]")
+    S.fns["ext:NpRng.uniform"].trusted = True
+    S.fn(f"{MT}:jitter_arith", owners=["C20"], params={"rng": Ref("NpRng"), "original": REAL, "delta": REAL}, returns=REAL,
+         locals={"jitter": REAL},
+         requires=["rng is not None", "delta >= 0"],
+         ensures=[("never-earlier", "result >= original"), ("by-at-most-delta", "result - original <= delta")],
+         modifies=[], note="extracted from jitter_command: the draw and the addition (real arithmetic)")
